@@ -288,6 +288,19 @@ def mp4_ilst_first(d):
     return d[:h["off"]] + d[i["off"]:i["off"] + i["size"]] + d[h["off"]:h["off"] + h["size"]] + d[i["off"] + i["size"]:]
 
 
+def flac_with_picture(d):
+    """a PICTURE block with a non-ASCII description and MIME type right behind STREAMINFO (own encoder)"""
+    if d[:4] != b"fLaC" or d[4] & 0x7F != 0 or d[4] & 0x80:
+        return None
+    desc = "Обложка 表紙 ü".encode("utf-8")
+    mime = b"image/png"
+    data = b"\x89PNG\r\n" + bytes(range(200))
+    pl = struct.pack(">I", 3) + struct.pack(">I", len(mime)) + mime + struct.pack(">I", len(desc)) + desc + struct.pack(">4I", 16, 16, 24, 0) + struct.pack(">I", len(data)) + data
+    blk = bytes([6]) + len(pl).to_bytes(3, "big") + pl
+    p = 8 + 34
+    return d[:p] + blk + d[p:]
+
+
 def flac_long_total(d):
     """STREAMINFO with a total sample count above 2^32 (the field has 36 bits)"""
     if d[:4] != b"fLaC" or d[4] & 0x7F != 0:
@@ -329,6 +342,9 @@ def extra_samples(kind, base):
             x = flac_long_total(d0)
             if x:
                 out.append(("synth-total-above-2^32+" + name0, x))
+            x = flac_with_picture(d0)
+            if x:
+                out.append(("synth-picture-nonascii+" + name0, x))
         elif kind.family == "mp4":
             for nm, dd in base:
                 x = mp4_ilst_first(dd)
